@@ -749,7 +749,7 @@ class Builder:
         if expect is None:
             expect = first_exc or ""
         # wrong number of arguments
-        if not force_ok and rng.random() < 0.03:
+        if not force_ok and rng.random() < 0.03 and not (single_bad and expect):
             if sig[0] == "vsum":
                 args = []
             elif rng.random() < 0.5:
